@@ -44,6 +44,22 @@ def gen_index(rng, shape, malformed=False):
         if rng.random() < 0.4:
             return mask.tolist(), ["bool-mask", "bool-list"]       # a (nested) Python list of booleans is a mask too
         return mask, ["bool-mask"]
+    if not malformed and 0.12 <= style < 0.22:
+        # one index array on the leading axis whose entries alias: literal repeats, or literally DISTINCT entries that
+        # address one position (k and k - dim); spelled as list, ndarray or tuple, at top level or inside the index tuple
+        dim = shape[0]
+        k = rng.randrange(dim)
+        vals = [k, k - dim] if rng.random() < 0.6 else [k, k]
+        vals += rng.sample([v for v in range(-dim, dim) if v not in (k, k - dim)], min(rng.randint(0, 2), 2 * dim - 2))
+        rng.shuffle(vals)
+        spell = rng.choice(["list", "array", "tuple-in-tuple", "list-in-tuple", "array-in-tuple", "array-int32"])
+        arr = {"list": vals, "array": onp.array(vals), "array-int32": onp.array(vals, dtype=onp.int32)}.get(spell)
+        if arr is None:
+            inner = tuple(vals) if spell == "tuple-in-tuple" else vals if spell == "list-in-tuple" else onp.array(vals)
+            rest = [rng.choice([slice(None), slice(None, None, -1)]) for _ in range(rng.randint(0, nd - 1))]
+            arr = tuple([inner] + rest)
+        return arr, ["int-array-repeats", "alias-" + ("distinct-literals" if len(set(vals)) == len(vals) else "literal-repeat"),
+                     "spelled-" + spell]
     want_adv = style < 0.45
     n_adv = 0
     while used < nd:
